@@ -103,6 +103,7 @@ def apply_contract(interp, c, func, args, kwargs):
     old = None
     if c.old is not None:
         old = _call_pred(interp, c.old, env)
+        env = dict(env, old=old)      # `when` conditions of exceptional outcomes may mention the pre-state
     if c.event is not None:
         st.emit(c.event, dict(bound))
     # frame: ghost state the callee may change (entries 'ghost:<key>' of `modifies`) is havoced;
@@ -377,6 +378,7 @@ def _run_path(interp, reg, c, func, rep):
     old = None
     if c.old is not None:
         old = _call_pred(interp, c.old, env)
+        env = dict(env, old=old)      # `when` conditions of exceptional outcomes may mention the pre-state
         reg.ghost_env['old'] = old        # visible to loop invariants
     # positional order of the real function
     code = func.__code__
